@@ -28,7 +28,7 @@ def spellings(v):
     js = []
     if -(1 << 63) <= v < (1 << 64):
         js.append(v)
-    if abs(v) < (1 << 53) and abs(v) < 10 ** 15:
+    if abs(v) < 10 ** 14:  # "<v>.0" must stay within 15 written digits (longer: serde_json reads it lossily, K1)
         js.append(float(v))
     return [("string", s) for s in out] + [("number", j) for j in js]
 
